@@ -2,6 +2,7 @@ import ZstdVerif.Model.Estimate
 import ZstdVerif.Model.DBuf
 import ZstdVerif.Model.Rep
 import ZstdVerif.Model.Frame
+import ZstdVerif.Model.HeaderW
 import Driver.Util
 /-! line-protocol driver for the memory-budget models (C14): workspace reservations / estimates, decoder buffer sizing -/
 namespace Driver.Mem
@@ -48,6 +49,10 @@ def step (_ : Unit) (ws : List String) : Unit × String :=
     let ob := Rep.finalizeOffBase raw.toNat! r ll0
     let r' := Rep.updateRep r ob ll0
     ((), s!"{ob} {r'.r0} {r'.r1} {r'.r2}")
+  | ["fhdr", wl, pl, cs, did, nd, ck, ml] =>
+    let a : HeaderW.HArgs := { windowLog := wl.toNat!, pledged := pl.toNat!, contentSizeFlag := cs != "0", dictID := did.toNat!, noDictID := nd != "0",
+                               checksum := ck != "0", magicless := ml != "0" }
+    ((), (ByteArray.mk (HeaderW.writeHeader a).toArray).toHex)
   | ["codes", ll, ml] => ((), s!"{Rep.llCode ll.toNat!} {Rep.mlCode ml.toNat!}")
   | "dseq" :: out :: whole :: frames =>
     -- dseq <first output room> <whole stream in the first call 0|1> <hex frame> ... : buffer sizes after each frame through one context
